@@ -179,6 +179,14 @@ func runC07(r *rt.Run, tier string) {
 	if tier == "thorough" {
 		o.MaxParas, o.MaxFields = 6, 8
 	}
+	if t.Bool(1, 80, "c07.many") {
+		// hundreds of paragraphs: nothing bounds their number
+		o.MinParas = 150 + t.Draw(600, "c07.many.n")
+		o.MaxParas = o.MinParas
+		o.MaxFields = 3
+		o.AllowLong = false
+		r.Probe("document-with-hundreds-of-paragraphs")
+	}
 	model, doc, splits := genDoc(t, o, r)
 	mode := t.Weighted([]int{5, 3, 2, 2}, "config.mode") // 0 fault-free, 1 truncate, 2 eio, 3 arbitrary input
 	r.Stats[[]string{"config.faultfree", "config.truncate", "config.eio", "config.arbitrary"}[mode]]++
@@ -475,5 +483,5 @@ func init() {
 		},
 		Assumptions: []string{"generator model and reference reader written from Debian Policy 5.1 / deb822(5), independent of the library; the reference reader is checked against the generator model on every run"},
 	})
-	propProbes["C07"] = []string{"slice-emptied-and-decoded-into-again", "transient-read-fault", "two-readers-alive", "crlf", "comment-between-continuations", "comment-before-first", "comment-last", "no-final-newline", "long-line", "empty-first-line", "dot-line", "truncate-wellformed-prefix", "arbitrary-raw", "arbitrary-mutated"}
+	propProbes["C07"] = []string{"document-with-hundreds-of-paragraphs", "slice-emptied-and-decoded-into-again", "transient-read-fault", "two-readers-alive", "crlf", "comment-between-continuations", "comment-before-first", "comment-last", "no-final-newline", "long-line", "empty-first-line", "dot-line", "truncate-wellformed-prefix", "arbitrary-raw", "arbitrary-mutated"}
 }
